@@ -47,7 +47,7 @@ func (p *c05) Directed() []string {
 }
 
 func (p *c05) Floors(tier string) []string {
-	return []string{"clause.steps_per_sprint", "clause.no_panic_no_hang", "clause.limit_means_failed", "clause.resume_limit", "clause.msg_text_len", "clause.quick_reply_len",
+	return []string{"clause.steps_per_sprint", "clause.no_panic_no_hang", "clause.limit_means_failed", "clause.resume_limit", "clause.goerror_not_from_limit", "clause.msg_text_len", "clause.quick_reply_len",
 		"clause.attachment_len", "clause.name_len", "clause.field_len", "clause.result_len", "seen.step_limit", "seen.resume_limit", "seen.cut_value"}
 }
 
@@ -104,6 +104,28 @@ func c05Lengths() []namedScen {
 			Trigger: d.Manual("A", nil),
 		}})
 	}
+	// resume limit with waits that sit in runs which exit before the next resume
+	for _, mr := range []int{1, 2, 3} {
+		o := gen.Options{Set: true, MaxSteps: 100, MaxResumes: mr, MaxTemplateChars: 10000, MaxFieldChars: 640, MaxResultChars: 640}
+		var rs []gen.M
+		for i := 0; i < 8; i++ {
+			rs = append(rs, d.MsgResume(i, fmt.Sprint("r", i)))
+		}
+		out = append(out, namedScen{fmt.Sprintf("resume-limit-parent-loops-over-waiting-child-%d", mr), &gen.Scenario{
+			Assets: d.BaseAssets(
+				d.Flow("A", "messaging", d.Node("a1", []any{d.Enter("a1e", "B", false)}, nil, d.Exit("a1x", "a1"))),
+				d.Flow("B", "messaging", d.WaitNode("b1", "", nil))),
+			Trigger: d.Manual("A", nil), Resumes: rs, Options: o,
+		}})
+		out = append(out, namedScen{fmt.Sprintf("resume-limit-terminal-self-enter-%d", mr), &gen.Scenario{
+			Assets:  d.BaseAssets(d.Flow("A", "messaging", d.WaitNode("a1", "a2", nil), d.Node("a2", []any{d.Enter("a2e", "A", true)}, nil, d.Exit("a2x", "")))),
+			Trigger: d.Manual("A", nil), Resumes: rs, Options: o,
+		}})
+		out = append(out, namedScen{fmt.Sprintf("resume-limit-timeouts-and-expirations-%d", mr), &gen.Scenario{
+			Assets:  d.BaseAssets(d.Flow("A", "messaging", d.Node("a0", []any{d.Enter("a0e", "B", false)}, nil, d.Exit("a0x", "a0"))), d.Flow("B", "messaging", d.WaitNode("b1", "b2", sp("b2")), d.WaitNode("b2", "", sp("")))),
+			Trigger: d.Manual("A", nil), Resumes: []gen.M{d.Timeout(0), d.MsgResume(1, "x"), d.Timeout(2), d.Timeout(3), d.MsgResume(4, "y"), d.Expiration(5), d.MsgResume(6, "z")}, Options: o,
+		}})
+	}
 	for _, fc := range []int{0, 1, 2} {
 		out = append(out, namedScen{fmt.Sprintf("tiny-field-result-chars-%d", fc), &gen.Scenario{
 			Assets: d.BaseAssets(d.Flow("A", "messaging", d.Node("a1", []any{
@@ -128,6 +150,27 @@ func (p *c05) scenario(c fw.Case) (*gen.Scenario, *fw.Rand) {
 	}
 	o := gen.ScenOpts{LoopHeavy: r.Chance(0.6), SmallOptions: r.Chance(0.7), LongTexts: r.Chance(0.6), MaxNodes: r.Range(2, 8), ContactChanges: r.Chance(0.5)}
 	return gen.Scen(r, o), r
+}
+
+// errorGoesAwayWithoutLimit re-runs the history with MaxStepsPerSprint raised to 3x+20 and reports whether engine call
+// #index then returns without a Go error.
+func (p *c05) errorGoesAwayWithoutLimit(scen *gen.Scenario, seed int64, index int) bool {
+	big := *scen
+	eng := drive.NewEngine(scen.Options)
+	o := gen.Options{Set: true, MaxSteps: eng.Options().MaxStepsPerSprint*3 + 20, MaxResumes: eng.Options().MaxResumesPerSession, MaxTemplateChars: eng.Options().MaxTemplateChars,
+		MaxFieldChars: eng.Options().MaxFieldChars, MaxResultChars: eng.Options().MaxResultChars}
+	big.Options = o
+	rn, err := drive.Load(&big, seed)
+	if err != nil {
+		return false
+	}
+	gone := false
+	rn.RunAll(func(rec *drive.CallRecord) {
+		if rec.Index == index && rec.Err == nil && rec.Panic == nil && !rec.Budget {
+			gone = true
+		}
+	})
+	return gone
 }
 
 func (p *c05) Run(c fw.Case) fw.Result {
@@ -168,8 +211,13 @@ func (p *c05) Run(c fw.Case) fw.Result {
 			return
 		}
 		if rec.Err != nil {
-			if _, isEngErr := rec.Err.(*engine.Error); !isEngErr && strings.Contains(rec.Err.Error(), "maximum number") {
-				viol("C05|limit-returned-go-error", "hitting a limit returned a Go error: "+rec.Err.Error(), nil)
+			if _, isEngErr := rec.Err.(*engine.Error); !isEngErr {
+				res.Count("clause.goerror_not_from_limit", 1)
+				// differential: the same history under a much larger step limit. If the call then returns without a Go
+				// error, it was the step limit that produced the Go error.
+				if strings.Contains(rec.Err.Error(), "maximum number") || p.errorGoesAwayWithoutLimit(scen, c.Seed, rec.Index) {
+					viol("C05|limit-returned-go-error", "hitting the step limit returned a Go error instead of failing the session: "+trunc(rec.Err.Error(), 200), nil)
+				}
 			}
 			return
 		}
